@@ -20,6 +20,8 @@ RULE = ("operand sets: a (3-d, every axis unsorted, metadata with mutable values
         "write_nc, Dataset construction / insertion / operations); copy() independence under every kind of in-place change. "
         "class = operation name (+ label kinds); trivial = none. Guest shards: C01-C18 workloads")
 ANCHORS = ["dimarraycls.copy", "align._get_aligned_axes", "reshape.reshape", "operation.operation", "dataset.__setitem__"]
+# entry points the workload calls itself; the other anchors are helpers behind them (counted as evidence only)
+ANCHORS_REQUIRED = ["dimarraycls.copy", "reshape.reshape", "dataset.__setitem__"]
 FLOORS = {"quick": {"evaluations": 300, "distinct": 90, "event:imm_operand_checks": 100000, "outcome:catalogue-ops": 15000, "outcome:copy-mutations": 1500},
           "thorough": {"evaluations": 5000, "distinct": 100}}
 GUESTS = [("c01", 0.1), ("c02", 0.03), ("c03", 0.1), ("c04", 0.15), ("c06", 0.25), ("c07", 0.1), ("c08", 0.1), ("c09", 0.1), ("c10", 0.1),
